@@ -1,5 +1,6 @@
 import NdnProofs.Lemmas.CodecTotal
 import NdnProofs.Lemmas.CodecRT
+import NdnProofs.Lemmas.CodecStrict
 import NdnModel.Packet
 import NdnGen.C07
 /-!
@@ -153,5 +154,262 @@ example : decodePacket Gen.C07.data 6 false true [] [0x06, 0x00] = .error .decod
 /-- an integer of width 3 is rejected with ValueError -/
 example : decodePacket Gen.C07.data 6 false true []
     [0x06, 0x0a, 0x07, 0x00, 0x14, 0x05, 0x18, 0x03, 0x00, 0x00, 0x01] = .error .indexError := by rfl
+
+/-! ## The strict decoder and the exact size of the known finding
+
+`Ndn.Codec.strictParse` / `Ndn.Packet.strictDecodePacket` (NdnModel/CodecStrict.lean) are the decoder *with* the
+bounds check the code lacks: after an element's Type and Length are read, `hdr + len ≤ rest.length`, otherwise
+the element overruns (`SErr.overrun kind`, the documented IndexError).  `WellNested` / `PacketNested` say what
+"every nested element lies inside its parent" means without mentioning any decoder.  All theorems below hold for
+**every byte string** and every schema of the fragment `pFs` (no MapField), by induction on the fuel. -/
+
+/-- **strict_accepts_well_nested.** Whatever the strict reading accepts is a sequence of complete elements,
+    each inside the wire, recursively inside every recognised sub-model, name components inside their Name. -/
+theorem strict_accepts_well_nested (fs : List Schema) (ic : Bool) (w : Bytes) (vs : List Value)
+    (hp : pFs fs = true) (h : strictParse fs ic w = .ok vs) : WellNested fs 0 w :=
+  (nested_step (w.length + 1)).1 fs ic w 0 0 _ vs hp h
+
+/-- the strict and the faithful decoder agree (value for value, error class for error class) unless the
+    strict reading stops at an overrun; at an overrunning integer or Name the faithful decoder fails too -/
+theorem strict_agrees (fs : List Schema) (ic : Bool) (w : Bytes) (hp : pFs fs = true) :
+    Agree (strictParse fs ic w) (parse fs ic w) :=
+  (agree_step (w.length + 1)).1 fs ic w 0 0 _ hp
+
+/-- **strict_refines.** Whatever the strict reading accepts, the decoder accepts with exactly the same
+    extracted fields. -/
+theorem strict_refines (fs : List Schema) (ic : Bool) (w : Bytes) (vs : List Value) (hp : pFs fs = true)
+    (h : strictParse fs ic w = .ok vs) : parse fs ic w = .ok vs := by
+  have := strict_agrees fs ic w hp
+  rw [h] at this; exact this
+
+/-- **strict_error_agrees.** Where the strict reading rejects for a reason other than an overrun, the decoder
+    rejects with the same error class. -/
+theorem strict_error_agrees (fs : List Schema) (ic : Bool) (w : Bytes) (e : PyErr) (hp : pFs fs = true)
+    (h : strictParse fs ic w = .error (.py e)) : parse fs ic w = .error e := by
+  have := strict_agrees fs ic w hp
+  rw [h] at this; exact this
+
+/-- **only_overruns_differ.** The converse of `strict_refines` up to the known finding: a byte string the
+    decoder accepts is accepted by the strict reading with the same fields, or the strict reading stops at an
+    overrunning element — and that element is a byte string, a sub-model, a boolean or an unrecognised one
+    (the four `overrun-*` keys of known_findings.txt; an overrunning integer is struct.error / ValueError and an
+    overrunning Name is IndexError in the code as it is). -/
+theorem only_overruns_differ (fs : List Schema) (ic : Bool) (w : Bytes) (vs : List Value) (hp : pFs fs = true)
+    (h : parse fs ic w = .ok vs) :
+    strictParse fs ic w = .ok vs ∨
+    ∃ k, strictParse fs ic w = .error (.overrun k) ∧
+      (k = .byteString ∨ k = .subModel ∨ k = .boolean ∨ k = .unrecognised) := by
+  have ha := strict_agrees fs ic w hp
+  cases hs : strictParse fs ic w with
+  | ok vs' =>
+    rw [hs] at ha
+    have : parse fs ic w = .ok vs' := ha
+    rw [h] at this; cases this; exact .inl rfl
+  | error e =>
+    cases e with
+    | py e =>
+      rw [hs] at ha
+      have : parse fs ic w = .error e := ha
+      rw [h] at this; cases this
+    | overrun k =>
+      right
+      refine ⟨k, rfl, ?_⟩
+      rw [hs] at ha
+      have hv : (k = .integer ∨ k = .name) → ∃ e, parse fs ic w = .error e := ha
+      cases k with
+      | integer => obtain ⟨e, he⟩ := hv (.inl rfl); rw [h] at he; cases he
+      | name => obtain ⟨e, he⟩ := hv (.inr rfl); rw [h] at he; cases he
+      | byteString => simp
+      | subModel => simp
+      | boolean => simp
+      | unrecognised => simp
+
+/-- **accept_iff_strict.** The acceptance gap is exactly the overruns: the strict reading accepts (with
+    fields `vs`) iff the decoder accepts (with fields `vs`) and the byte string is well nested. -/
+theorem accept_iff_strict (fs : List Schema) (ic : Bool) (w : Bytes) (vs : List Value) (hp : pFs fs = true) :
+    strictParse fs ic w = .ok vs ↔ (parse fs ic w = .ok vs ∧ WellNested fs 0 w) := by
+  constructor
+  · intro h
+    exact ⟨strict_refines fs ic w vs hp h, strict_accepts_well_nested fs ic w vs hp h⟩
+  · intro ⟨h, hw⟩
+    rcases only_overruns_differ fs ic w vs hp h with h' | ⟨k, hk, _⟩
+    · exact h'
+    · exact absurd hk (wellNested_noov hw hp _ _ _ _ k)
+
+/-! ### the same for whole packets -/
+
+theorem packet_strict_agrees (fs : List Schema) (outer : Nat) (ic nn : Bool) (forbid : List Nat)
+    (wire : Bytes) (hp : pFs fs = true) :
+    Agree (strictDecodePacket fs outer ic nn forbid wire) (decodePacket fs outer ic nn forbid wire) := by
+  unfold strictDecodePacket decodePacket
+  apply Agree.bind_lift; intro v _
+  apply Agree.bind (strict_agrees fs ic v hp); intro vs _ _
+  by_cases c1 : (nn && nameMissing fs vs) = true
+  · simp only [c1, if_true]; exact Agree.err _
+  · simp only [c1, if_false]
+    by_cases c2 : anyPresent fs vs forbid = true
+    · simp only [c2, if_true]; exact Agree.err _
+    · simp only [c2, if_false]; exact Agree.ok _
+
+/-- **packet_strict_refines.** A packet the strict packet decoder accepts is accepted by
+    `parse_interest` / `parse_data` / `parse_lp_packet_v2` / `parse_certificate` with the same fields. -/
+theorem packet_strict_refines (fs : List Schema) (outer : Nat) (ic nn : Bool) (forbid : List Nat)
+    (wire : Bytes) (vs : List Value) (hp : pFs fs = true)
+    (h : strictDecodePacket fs outer ic nn forbid wire = .ok vs) :
+    decodePacket fs outer ic nn forbid wire = .ok vs := by
+  have := packet_strict_agrees fs outer ic nn forbid wire hp
+  rw [h] at this; exact this
+
+/-- **packet_only_overruns_differ.** An accepted packet is accepted by the strict packet decoder with the same
+    fields unless some element inside it overruns, and then the first such element is a byte string, a
+    sub-model, a boolean or unrecognised. -/
+theorem packet_only_overruns_differ (fs : List Schema) (outer : Nat) (ic nn : Bool) (forbid : List Nat)
+    (wire : Bytes) (vs : List Value) (hp : pFs fs = true)
+    (h : decodePacket fs outer ic nn forbid wire = .ok vs) :
+    strictDecodePacket fs outer ic nn forbid wire = .ok vs ∨
+    ∃ k, strictDecodePacket fs outer ic nn forbid wire = .error (.overrun k) ∧
+      (k = .byteString ∨ k = .subModel ∨ k = .boolean ∨ k = .unrecognised) := by
+  have ha := packet_strict_agrees fs outer ic nn forbid wire hp
+  cases hs : strictDecodePacket fs outer ic nn forbid wire with
+  | ok vs' =>
+    rw [hs] at ha
+    have : decodePacket fs outer ic nn forbid wire = .ok vs' := ha
+    rw [h] at this; cases this; exact .inl rfl
+  | error e =>
+    cases e with
+    | py e =>
+      rw [hs] at ha
+      have : decodePacket fs outer ic nn forbid wire = .error e := ha
+      rw [h] at this; cases this
+    | overrun k =>
+      right
+      refine ⟨k, rfl, ?_⟩
+      rw [hs] at ha
+      have hv : (k = .integer ∨ k = .name) → ∃ e, decodePacket fs outer ic nn forbid wire = .error e := ha
+      cases k with
+      | integer => obtain ⟨e, he⟩ := hv (.inl rfl); rw [h] at he; cases he
+      | name => obtain ⟨e, he⟩ := hv (.inr rfl); rw [h] at he; cases he
+      | byteString => simp
+      | subModel => simp
+      | boolean => simp
+      | unrecognised => simp
+
+/-- **packet_strict_accepts_well_nested.** A packet the strict packet decoder accepts is exactly one element
+    of the expected Type filling the wire whose Value is well nested. -/
+theorem packet_strict_accepts_well_nested (fs : List Schema) (outer : Nat) (ic nn : Bool) (forbid : List Nat)
+    (wire : Bytes) (vs : List Value) (hp : pFs fs = true)
+    (h : strictDecodePacket fs outer ic nn forbid wire = .ok vs) : PacketNested fs outer wire := by
+  unfold strictDecodePacket at h
+  obtain ⟨v, hv, hrest⟩ := sbind_ok h
+  obtain ⟨vs', hvs, _⟩ := sbind_ok hrest
+  have hv := lift_ok hv
+  have hw := strict_accepts_well_nested fs ic v vs' hp hvs
+  unfold parseAndCheckTl at hv
+  obtain ⟨⟨typ, tl⟩, h1, hv2⟩ := bind_ok hv
+  obtain ⟨⟨size, sl⟩, h2, hv3⟩ := bind_ok hv2
+  simp only [] at hv3
+  split at hv3
+  · cases hv3
+  · rename_i ht
+    split at hv3
+    · cases hv3
+    · rename_i hl
+      have : typ = outer := by simpa using ht
+      subst this
+      cases hv3
+      exact ⟨tl, size, sl, h1, h2, by simpa using hl, hw⟩
+
+theorem packet_noov (fs : List Schema) (outer : Nat) (ic nn : Bool) (forbid : List Nat) (wire : Bytes)
+    (hp : pFs fs = true) (hn : PacketNested fs outer wire) :
+    NoOv (strictDecodePacket fs outer ic nn forbid wire) := by
+  obtain ⟨tl, size, sl, h1, h2, hl, hw⟩ := hn
+  unfold strictDecodePacket parseAndCheckTl
+  simp only [h1, h2, ok_bind, ne_eq, not_true_eq_false, if_false, hl, pure, Except.pure, lift_ok_eq]
+  apply NoOv.bind (wellNested_noov hw hp _ _ _ _); intro vs _
+  split
+  · exact NoOv.py _
+  · split
+    · exact NoOv.py _
+    · exact NoOv.ok _
+
+/-- **packet_accept_iff_strict.** For whole packets: the strict packet decoder accepts iff the shipped decoder
+    accepts with the same fields and the packet is well nested. -/
+theorem packet_accept_iff_strict (fs : List Schema) (outer : Nat) (ic nn : Bool) (forbid : List Nat)
+    (wire : Bytes) (vs : List Value) (hp : pFs fs = true) :
+    strictDecodePacket fs outer ic nn forbid wire = .ok vs ↔
+      (decodePacket fs outer ic nn forbid wire = .ok vs ∧ PacketNested fs outer wire) := by
+  constructor
+  · intro h
+    exact ⟨packet_strict_refines fs outer ic nn forbid wire vs hp h,
+      packet_strict_accepts_well_nested fs outer ic nn forbid wire vs hp h⟩
+  · intro ⟨h, hw⟩
+    rcases packet_only_overruns_differ fs outer ic nn forbid wire vs hp h with h' | ⟨k, hk, _⟩
+    · exact h'
+    · exact absurd hk (packet_noov fs outer ic nn forbid wire hp hw k)
+
+/-- **shipped_decoders_strict.** The four shipped packet decoders (schemas regenerated from the source on
+    every run): accepted-by-strict ⇔ accepted ∧ well nested, with equal fields, for every byte string. -/
+theorem shipped_decoders_strict (wire : Bytes) (vs : List Value) :
+    (strictDecodePacket Gen.C07.interest 5 false true [] wire = .ok vs ↔
+      (decodePacket Gen.C07.interest 5 false true [] wire = .ok vs ∧ PacketNested Gen.C07.interest 5 wire)) ∧
+    (strictDecodePacket Gen.C07.data 6 false true [] wire = .ok vs ↔
+      (decodePacket Gen.C07.data 6 false true [] wire = .ok vs ∧ PacketNested Gen.C07.data 6 wire)) ∧
+    (strictDecodePacket Gen.C07.lp 100 true false [82, 83] wire = .ok vs ↔
+      (decodePacket Gen.C07.lp 100 true false [82, 83] wire = .ok vs ∧ PacketNested Gen.C07.lp 100 wire)) ∧
+    (strictDecodePacket Gen.C07.cert 6 false true [] wire = .ok vs ↔
+      (decodePacket Gen.C07.cert 6 false true [] wire = .ok vs ∧ PacketNested Gen.C07.cert 6 wire)) := by
+  have h := Gen.C07.packet_schemas_ok
+  simp only [List.all_cons, List.all_nil, Bool.and_true, Bool.and_eq_true] at h
+  exact ⟨packet_accept_iff_strict _ _ _ _ _ _ _ h.1, packet_accept_iff_strict _ _ _ _ _ _ _ h.2.1,
+    packet_accept_iff_strict _ _ _ _ _ _ _ h.2.2.1, packet_accept_iff_strict _ _ _ _ _ _ _ h.2.2.2⟩
+
+/-- **shipped_only_overruns_differ.** For the four shipped decoders an accepted packet that the strict reading
+    does not accept contains an overrunning byte-string, sub-model, boolean or unrecognised element. -/
+theorem shipped_only_overruns_differ (wire : Bytes) (vs : List Value) :
+    (decodePacket Gen.C07.interest 5 false true [] wire = .ok vs →
+      strictDecodePacket Gen.C07.interest 5 false true [] wire = .ok vs ∨
+      ∃ k, strictDecodePacket Gen.C07.interest 5 false true [] wire = .error (.overrun k) ∧
+        (k = .byteString ∨ k = .subModel ∨ k = .boolean ∨ k = .unrecognised)) ∧
+    (decodePacket Gen.C07.data 6 false true [] wire = .ok vs →
+      strictDecodePacket Gen.C07.data 6 false true [] wire = .ok vs ∨
+      ∃ k, strictDecodePacket Gen.C07.data 6 false true [] wire = .error (.overrun k) ∧
+        (k = .byteString ∨ k = .subModel ∨ k = .boolean ∨ k = .unrecognised)) ∧
+    (decodePacket Gen.C07.lp 100 true false [82, 83] wire = .ok vs →
+      strictDecodePacket Gen.C07.lp 100 true false [82, 83] wire = .ok vs ∨
+      ∃ k, strictDecodePacket Gen.C07.lp 100 true false [82, 83] wire = .error (.overrun k) ∧
+        (k = .byteString ∨ k = .subModel ∨ k = .boolean ∨ k = .unrecognised)) ∧
+    (decodePacket Gen.C07.cert 6 false true [] wire = .ok vs →
+      strictDecodePacket Gen.C07.cert 6 false true [] wire = .ok vs ∨
+      ∃ k, strictDecodePacket Gen.C07.cert 6 false true [] wire = .error (.overrun k) ∧
+        (k = .byteString ∨ k = .subModel ∨ k = .boolean ∨ k = .unrecognised)) := by
+  have h := Gen.C07.packet_schemas_ok
+  simp only [List.all_cons, List.all_nil, Bool.and_true, Bool.and_eq_true] at h
+  exact ⟨packet_only_overruns_differ _ _ _ _ _ _ _ h.1, packet_only_overruns_differ _ _ _ _ _ _ _ h.2.1,
+    packet_only_overruns_differ _ _ _ _ _ _ _ h.2.2.1, packet_only_overruns_differ _ _ _ _ _ _ _ h.2.2.2⟩
+
+/-! ### non-vacuity of the strict theorems -/
+/-- the known-finding vector: the strict reading stops at the overrunning Content (a byte string) -/
+example : strictDecodePacket Gen.C07.data 6 false true []
+    [0x06, 0x09, 0x07, 0x03, 0x08, 0x01, 0x61, 0x15, 0x10, 0x78, 0x79] = .error (.overrun .byteString) := by rfl
+/-- … so that packet, which `parse_data` accepts, is NOT well nested -/
+example : ¬ PacketNested Gen.C07.data 6 [0x06, 0x09, 0x07, 0x03, 0x08, 0x01, 0x61, 0x15, 0x10, 0x78, 0x79] := by
+  intro hn
+  obtain ⟨vs, hd, _⟩ := overrun_accepted_counterexample
+  have := ((shipped_decoders_strict _ vs).2.1).mpr ⟨hd, hn⟩
+  cases this
+/-- the repaired vector (Content Length 2) is accepted by both readings, hence well nested -/
+example : PacketNested Gen.C07.data 6 [0x06, 0x09, 0x07, 0x03, 0x08, 0x01, 0x61, 0x15, 0x02, 0x78, 0x79] :=
+  packet_strict_accepts_well_nested Gen.C07.data 6 false true [] _ _ (by decide) rfl
+/-- the other three kinds of the known finding: boolean (MustBeFresh, Length 1, no Value byte), sub-model
+    (MetaInfo, Length 5, 3 bytes) and unrecognised non-critical (Type 0xF0) -/
+example : strictDecodePacket Gen.C07.interest 5 false true [] [0x05, 0x07, 0x07, 0x03, 0x08, 0x01, 0x61, 0x12, 0x01]
+    = .error (.overrun .boolean) := by rfl
+example : strictDecodePacket Gen.C07.data 6 false true []
+    [0x06, 0x0a, 0x07, 0x03, 0x08, 0x01, 0x61, 0x14, 0x05, 0x18, 0x01, 0x00] = .error (.overrun .subModel) := by rfl
+example : strictDecodePacket Gen.C07.data 6 false true []
+    [0x06, 0x08, 0x07, 0x03, 0x08, 0x01, 0x61, 0xf0, 0x09, 0x00] = .error (.overrun .unrecognised) := by rfl
+/-- an overrunning integer is rejected by the code as it is (struct.error), as `only_overruns_differ` says -/
+example : decodePacket Gen.C07.data 6 false true []
+    [0x06, 0x0a, 0x07, 0x03, 0x08, 0x01, 0x61, 0x14, 0x03, 0x18, 0x02, 0x00] = .error .structError := by rfl
 
 end Ndn.C07
